@@ -4,6 +4,8 @@ package main
 
 import (
 	"fmt"
+
+	"com.tuntun.rangers/node/src/common"
 	"math/big"
 	"math/rand"
 	"strings"
@@ -34,7 +36,97 @@ type gen struct {
 	cfg     string
 	created []int // indexes of earlier create txs that deployed a runtime
 	plain   bool  // targets restricted to addresses whose code cannot call back
+	dustN   int   // dust senders used so far in this sequence
 }
+
+// dust returns a pair of steps: fill an (as yet empty) dust sender to an exact
+// threshold balance, then let it send one fee-paying transaction of some kind.
+// Thresholds sit at and around every amount some code path compares a balance
+// with before debiting it: both flat fees (0.0001 before Proposal026, 0.001
+// after), fee + gasLimit*gasPrice + value of contract transactions, fee + stake
+// of miner transactions, fee + 10 RPG of the operator-node transaction. A debit
+// that silently does nothing on insufficient funds while its credit still runs
+// shows up as a sum increase of exactly the credited amount.
+func (g *gen) dust() []*TxSpec {
+	d := fmt.Sprintf("dust:%d", g.dustN%nDust)
+	g.dustN++
+	fee026 := new(big.Int).Set(feeWei)              // 1e15
+	fee := new(big.Int).Quo(feeWei, big.NewInt(10)) // 1e14
+	around := func(x *big.Int) []*big.Int {
+		return []*big.Int{new(big.Int).Sub(x, big.NewInt(1)), new(big.Int).Set(x), new(big.Int).Add(x, big.NewInt(1))}
+	}
+	flat := []*big.Int{big.NewInt(0), big.NewInt(1), big.NewInt(5e13), big.NewInt(5e14), big.NewInt(15e14), big.NewInt(2e15), big.NewInt(1e16)}
+	flat = append(flat, around(fee)...)
+	flat = append(flat, around(fee026)...)
+	flat = append(flat, around(new(big.Int).Mul(fee026, big.NewInt(2)))...)
+	var s *TxSpec
+	var th []*big.Int
+	switch g.rng.Intn(10) {
+	case 0, 1:
+		s = &TxSpec{Kind: "transfer", Src: d, Template: "dust-transfer", Targets: []TA{{To: g.eoa(), Amt: g.pick([]string{"0", "0.000000000000000001", "@bal", "@bal+1", "0.0001", "0.001", "0.0009"})}}}
+		th = flat
+	case 2, 3, 4, 5:
+		gas := g.pick([]string{"2500000", "2500000", "1000000", "30000000", ""})
+		gl := uint64(30000000)
+		if gas != "" {
+			fmt.Sscanf(gas, "%d", &gl)
+		}
+		val := g.pick([]string{"0", "0.000000000000000001", "0.001", "0.0001", "1"})
+		vw, _ := parseTokens(val)
+		need := new(big.Int).Mul(new(big.Int).SetUint64(gl), gasPrice)
+		need.Add(need, vw)
+		via := g.pick([]string{"contract", "contract", "eth"})
+		if g.rng.Intn(3) == 0 {
+			s = &TxSpec{Kind: "create", Via: via, Src: d, Value: val, GasLimit: gas, Prog: []Action{{Op: g.pick([]string{"stop", "revert", "loop"})}}, Template: "dust-create"}
+		} else {
+			s = &TxSpec{Kind: "call", Via: via, Src: d, To: g.pick([]string{"eoa:1", "c:Sink", "c:Reverter", "c:Looper", "fee", "fresh:2"}), Value: val, GasLimit: gas, Template: "dust-call"}
+		}
+		th = append(append([]*big.Int{}, flat...), around(need)...)
+		th = append(th, around(new(big.Int).Add(need, fee026))...)
+		th = append(th, around(new(big.Int).Add(need, fee))...)
+		th = append(th, around(new(big.Int).Sub(need, vw))...)
+		// weight the transaction-specific thresholds
+		th = append(th, around(need)...)
+		th = append(th, around(new(big.Int).Add(need, fee026))...)
+	case 6, 7:
+		id := 3 + g.rng.Intn(3)
+		stake := g.pick64([]uint64{400, 2000, 401})
+		ty := byte(common.MinerTypeValidator)
+		if stake == 2000 {
+			ty = common.MinerTypeProposer
+		}
+		if g.rng.Intn(2) == 0 {
+			s = &TxSpec{Kind: "miner-apply", Src: d, Miner: &MinerSpec{Id: id, Type: ty, Stake: stake}}
+		} else {
+			s = &TxSpec{Kind: "miner-add", Src: d, Miner: &MinerSpec{Id: g.rng.Intn(3), Stake: stake}}
+		}
+		sw := new(big.Int).Mul(new(big.Int).SetUint64(stake), e18)
+		th = append(append([]*big.Int{}, flat...), around(sw)...)
+		th = append(th, around(new(big.Int).Add(sw, fee026))...)
+		th = append(th, around(new(big.Int).Add(sw, fee))...)
+		th = append(th, around(new(big.Int).Add(sw, fee026))...)
+	case 8:
+		if g.rng.Intn(2) == 0 {
+			s = &TxSpec{Kind: "miner-refund", Src: d, Miner: &MinerSpec{Id: g.rng.Intn(3), Refund: "1"}}
+		} else {
+			s = &TxSpec{Kind: "miner-change", Src: d, Miner: &MinerSpec{Id: g.rng.Intn(3), Account: "eoa:5"}}
+		}
+		th = flat
+	default:
+		s = &TxSpec{Kind: "op-node", Src: d}
+		ten := tokens(10)
+		th = append(append([]*big.Int{}, flat...), around(ten)...)
+		th = append(th, around(new(big.Int).Add(ten, fee026))...)
+	}
+	t := th[g.rng.Intn(len(th))]
+	if t.Sign() <= 0 {
+		return []*TxSpec{s}
+	}
+	fill := &TxSpec{Kind: "transfer", Src: "rich:0", Template: "dust-fill", Targets: []TA{{To: d, Amt: "@fill:" + t.String()}}}
+	return []*TxSpec{fill, s}
+}
+
+var _ = rand.Int
 
 func (g *gen) pick(xs []string) string { return xs[g.rng.Intn(len(xs))] }
 
@@ -412,6 +504,10 @@ func sequence(rng *rand.Rand, cfg string, idx int) ([]*TxSpec, bool) {
 	escrow := false
 	for i := 0; i < n; i++ {
 		var s *TxSpec
+		if rng.Intn(7) == 0 {
+			out = append(out, g.dust()...)
+			continue
+		}
 		switch k := rng.Intn(100); {
 		case k < 24:
 			s = g.transfer()
@@ -426,7 +522,7 @@ func sequence(rng *rand.Rand, cfg string, idx int) ([]*TxSpec, bool) {
 			if s.Kind == "miner-refund" {
 				escrow = true
 			}
-		case k < 94:
+		case k < 93:
 			s = &TxSpec{Kind: "op-node", Src: g.pick([]string{"rich:3", "eoa:1"})}
 		case k < 97 && cfg == "genesis":
 			s = &TxSpec{Kind: "reward"}
@@ -457,7 +553,7 @@ func (g *gen) stakeSeq() []*TxSpec {
 		return s
 	}
 	amounts := []*big.Int{tokens(1), tokens(5), tokens(100), bigDec(weiStr(1.5)), bigDec(weiStr(0.5)), big.NewInt(1), new(big.Int).Lsh(big.NewInt(1), 200),
-		new(big.Int).Lsh(big.NewInt(1), 255), tokens(1000), tokens(1001), tokens(600), tokens(4000), new(big.Int).Add(tokens(2), big.NewInt(1))}
+		new(big.Int).Lsh(big.NewInt(1), 255), tokens(1000), tokens(1001), tokens(600), tokens(4000), tokens(10000), tokens(10001), tokens(5000), tokens(5001), new(big.Int).Add(tokens(2), big.NewInt(1))}
 	n := 2 + g.rng.Intn(6)
 	for i := 0; i < n; i++ {
 		switch g.rng.Intn(7) {
